@@ -175,7 +175,7 @@ class Explorer(object):
                 continue
             if n_before > 1:
                 # the observers tell whether the unspecified CLSE was stored or dropped
-                self.stats["clse_stored" if any(q for st in r2.states for (_, q) in st if q[-1][0] == cmds()[2]) else "clse_dropped"] += 1
+                self.stats["clse_stored" if any(q for st in r2.states for (_, q) in st if q and q[-1][0] == cmds()[2]) else "clse_dropped"] += 1
             self.dfs(s2, r2, depth - 1, p2)
 
 
